@@ -49,7 +49,7 @@ Theorem C19_rms_check_sound : forall g x s c e rx re rs ax st,
 Proof. exact rms_check_sound. Qed.
 Print Assumptions C19_rms_check_sound.
 
-(* rank side condition (rank_guard = true: the repair proposed_fixes/ready/C19_06; the harness probes which variant each rule
+(* rank side condition (rank_guard = true: the repair fix 4146a4e; the harness probes which variant each rule
    file is): an accepted match cannot gain dimensions by broadcasting epsilon / scale / bias, so the pattern's result has the
    rank of x = the rank of the fused operator's output *)
 Theorem C19_rms_rank_guard_sufficient : forall x s c e rx re rs n a b r,
